@@ -119,6 +119,114 @@ Definition email_use (now : Z) (caller_tok : option token) (path_user : Z) (emai
        | VOk eu _ _ eml => if negb (path_user =? eu) then None else Some eml
        end.
 
+(* ------------------------------------------------------------------ the secrets in force *)
+(* The verifiers above are written for a server whose three secrets are different keys: there
+   [lib_accepts] compares the PURPOSE a token was signed for ([key_eqb]). What ParseJwt really
+   compares is the secret itself, and which secret each purpose uses is decided at start-up
+   (api/00-config.go defaults, overridden by api/config.go from the ini file). A configuration
+   assigns a secret (an index into a pool of keys: equal index = same HMAC key) to each purpose;
+   KForeign is a key the server does not use. The same decision logic over a configuration: *)
+Definition config := key -> Z.
+Definition lib_accepts_c (cfg : config) (now : Z) (secret : key) (t : token) : bool :=
+  is_hmac (t_alg t) && t_intact t && (cfg (t_key t) =? cfg secret) &&
+  lib_exp_ok now (t_exp t) && negb (t_nbf_future t) && negb (t_iat_future t).
+
+Definition verify_access_c (cfg : config) (now : Z) (check_expire : bool) (raw : option token) : vres :=
+  match raw with
+  | None => VOk GUEST 0 0 0
+  | Some t =>
+      if negb (lib_accepts_c cfg now KAccess t) then VInvalid else
+      match claim_str (t_cli t), claim_str (t_sub t), claim_int (t_exp t) with
+      | Some cli, Some sub, Some exp =>
+          if check_expire && (exp <? now) then VInvalid else VOk sub exp cli 0
+      | _, _, _ => VInvalid
+      end
+  end.
+
+Definition verify_refresh_c (cfg : config) (now : Z) (raw : option token) : vres :=
+  match raw with
+  | None => VOk GUEST 0 0 0
+  | Some t =>
+      if negb (lib_accepts_c cfg now KRefresh t) then VInvalid else
+      match claim_str (t_cli t), claim_str (t_sub t), claim_int (t_exp t), claim_str (t_typ t) with
+      | Some cli, Some sub, Some exp, Some typ =>
+          if exp <? now then VInvalid else if negb (typ =? TYP_REFRESH) then VInvalid else VOk sub exp cli 0
+      | _, _, _, _ => VInvalid
+      end
+  end.
+
+Definition verify_email_c (cfg : config) (now : Z) (ctx : Z) (raw : option token) : vres :=
+  match raw with
+  | None => VInvalid
+  | Some t =>
+      if negb (lib_accepts_c cfg now KEmail t) then VInvalid else
+      match claim_str (t_cli t), claim_str (t_sub t), claim_str (t_eml t), claim_int (t_exp t), claim_str (t_ctx t) with
+      | Some cli, Some sub, Some eml, Some exp, Some c =>
+          if exp <? now then VInvalid else if negb (c =? ctx) then VInvalid else VOk sub exp cli eml
+      | _, _, _, _, _ => VInvalid
+      end
+  end.
+
+Definition login_required_c (cfg : config) (now : Z) (raw : option token) : Z :=
+  match verify_access_c cfg now true raw with VOk u _ _ _ => u | VInvalid => GUEST end.
+
+Definition refresh_c (cfg : config) (now : Z) (access rfr : option token) (param_cli : Z) : option Z :=
+  match verify_access_c cfg now false access with
+  | VInvalid => None
+  | VOk ju jexp jcli _ =>
+      match verify_refresh_c cfg now rfr with
+      | VInvalid => None
+      | VOk u rexp cli _ =>
+          let dd := (rexp - jexp) - (REFRESH_TS - ACCESS_TS) in
+          if (EPSILON <? dd) || (dd <? - EPSILON) then None
+          else if negb (cli =? param_cli) && negb (cli =? jcli) then None
+          else if negb (u =? ju) then None
+          else Some u
+      end
+  end.
+
+Definition get_token_info_c (cfg : config) (now : Z) (caller_tok body_tok : option token) : option Z :=
+  let caller := login_required_c cfg now caller_tok in
+  match verify_access_c cfg now true body_tok with
+  | VInvalid => None
+  | VOk u _ _ _ => if u =? caller then Some u else None
+  end.
+
+Definition email_use_c (cfg : config) (now : Z) (caller_tok : option token) (path_user : Z) (email_tok : option token)
+                       (ctx : Z) (caller_is_admin allow_sysop : bool) : option Z :=
+  let caller := login_required_c cfg now caller_tok in
+  if path_user =? GUEST then None
+  else if negb (allow_sysop && caller_is_admin) && negb (caller =? path_user) then None
+  else match verify_email_c cfg now ctx email_tok with
+       | VInvalid => None
+       | VOk eu _ _ eml => if negb (path_user =? eu) then None else Some eml
+       end.
+
+(* what the server itself issues: CreateToken / CreateRefreshToken / CreateEmailToken (HS256, its own
+   secret of that purpose; the e-mail token's lifetime is JWT_TOKEN_EXPIRE_TS in the code) *)
+Definition issue (now : Z) (k : key) (user cli eml ctx : Z) : token :=
+  match k with
+  | KRefresh => mkTok HS256 KRefresh true (CStr user) (CNum (now + REFRESH_TS)) (CStr cli) (CStr TYP_REFRESH) CAbsent CAbsent false false
+  | KEmail => mkTok HS256 KEmail true (CStr user) (CNum (now + ACCESS_TS)) (CStr cli) CAbsent (CStr eml) (CStr ctx) false false
+  | _ => mkTok HS256 k true (CStr user) (CNum (now + ACCESS_TS)) (CStr cli) CAbsent CAbsent CAbsent false false
+  end.
+
+(* an issued token presented somewhere; the expiry is not part of the answer (the issuer reads its own clock) *)
+Definition strip_exp (r : vres) : list Z := match r with VInvalid => [0] | VOk u _ c m => [1; u; c; m] end.
+Definition present_issued (cfg : config) (now : Z) (k : key) (user cli eml ctx : Z) (verifier vctx : Z) : list Z :=
+  let t := Some (issue now k user cli eml ctx) in
+  if verifier =? 1 then strip_exp (verify_access_c cfg now true t)
+  else if verifier =? 2 then strip_exp (verify_refresh_c cfg now t)
+  else if verifier =? 3 then strip_exp (verify_email_c cfg now vctx t)
+  else if verifier =? 4 then [login_required_c cfg now t]
+  else if verifier =? 6 then
+    match get_token_info_c cfg now (Some (issue now KAccess user cli 0 0)) t with None => [0] | Some u => [1; u] end
+  else if verifier =? 51 then
+    match refresh_c cfg now (Some (issue now KAccess user cli 0 0)) t cli with None => [0] | Some u => [1; u] end
+  else if verifier =? 52 then
+    match refresh_c cfg now t (Some (issue now KRefresh user cli 0 0)) cli with None => [0] | Some u => [1; u] end
+  else [ST_BADCASE].
+
 (* ------------------------------------------------------------------ wire *)
 Definition dec_alg (z : Z) : alg := if z =? 0 then HS256 else if z =? 1 then HS384 else if z =? 2 then HS512 else if z =? 3 then AlgNone else AlgOther.
 Definition dec_key (z : Z) : key := if z =? 0 then KAccess else if z =? 1 then KRefresh else if z =? 2 then KEmail else KForeign.
@@ -132,6 +240,8 @@ Definition dec_tok (l : list Z) : option token :=
                   (dec_cv tk tv) (dec_cv mk mv) (dec_cv xk xv) (negb (nf =? 0)) (negb (iff =? 0)))
   | _ => None
   end.
+Definition dec_cfg (sa sr se sf : Z) : config :=
+  fun k => match k with KAccess => sa | KRefresh => sr | KEmail => se | KForeign => sf end.
 Definition enc_vres (r : vres) : list Z := match r with VInvalid => [0] | VOk u e c m => [1; u; e; c; m] end.
 Definition enc_opt (o : option Z) : list Z := match o with None => [0] | Some u => [1; u] end.
 
@@ -145,5 +255,16 @@ Definition run_case (args : list (list Z)) : list Z :=
   | [[6]; [now]; a; b] => ST_OK :: enc_opt (get_token_info now (dec_tok a) (dec_tok b))
   | [[7]; [now; path_user; ctx; adm; allow]; a; e] =>
       ST_OK :: enc_opt (email_use now (dec_tok a) path_user (dec_tok e) ctx (negb (adm =? 0)) (negb (allow =? 0)))
+  (* the same operations under the secrets in force [sa; sr; se; sf] *)
+  | [[11]; [now; chk]; [sa; sr; se; sf]; t] => ST_OK :: enc_vres (verify_access_c (dec_cfg sa sr se sf) now (negb (chk =? 0)) (dec_tok t))
+  | [[12]; [now]; [sa; sr; se; sf]; t] => ST_OK :: enc_vres (verify_refresh_c (dec_cfg sa sr se sf) now (dec_tok t))
+  | [[13]; [now; ctx]; [sa; sr; se; sf]; t] => ST_OK :: enc_vres (verify_email_c (dec_cfg sa sr se sf) now ctx (dec_tok t))
+  | [[14]; [now]; [sa; sr; se; sf]; t] => [ST_OK; login_required_c (dec_cfg sa sr se sf) now (dec_tok t)]
+  | [[15]; [now; pcli]; [sa; sr; se; sf]; a; r] => ST_OK :: enc_opt (refresh_c (dec_cfg sa sr se sf) now (dec_tok a) (dec_tok r) pcli)
+  | [[16]; [now]; [sa; sr; se; sf]; a; b] => ST_OK :: enc_opt (get_token_info_c (dec_cfg sa sr se sf) now (dec_tok a) (dec_tok b))
+  | [[17]; [now; path_user; ctx; adm; allow]; [sa; sr; se; sf]; a; e] =>
+      ST_OK :: enc_opt (email_use_c (dec_cfg sa sr se sf) now (dec_tok a) path_user (dec_tok e) ctx (negb (adm =? 0)) (negb (allow =? 0)))
+  | [[19]; [now; k; user; cli; eml; ctx]; [verifier; vctx]; [sa; sr; se; sf]] =>
+      ST_OK :: present_issued (dec_cfg sa sr se sf) now (dec_key k) user cli eml ctx verifier vctx
   | _ => [ST_BADCASE]
   end.
